@@ -22,7 +22,14 @@ Repr == {<<"buf", 2>>, <<"abuf", 1>>, <<"str", 0>>, <<"str", 2>>, <<"arr", 2, 2>
 Repr2 == {<<"buf", 2>>, <<"abuf", 1>>, <<"str", 0>>, <<"fbuf", 2, 2>>, <<"iov", <<1, 1>>>>, <<"aiov", <<0, 2>>>>,
           <<"msg", <<<<"abuf", 2>>, <<"str", 2>>>>>>, <<"arrm", 2, <<Elem(0), Elem(2)>>>>, <<"map", 2, 6, << <<3, 1, 4, 2>>, <<0, 1, 1, 2>> >>>>}
 MsgsQuick == MsgsOf(1, 2) \cup {[ck |-> c, S |-> 2, fs |-> <<a, b>>] : c \in BOOLEAN, a \in Repr2, b \in Repr2 \ MapOpts}
-MsgsThorough == MsgsOf(2, 2) \cup {[ck |-> c, S |-> 2, fs |-> <<a, b, d>>] : c \in BOOLEAN, a \in Repr, b \in Repr \ MapOpts, d \in Repr \ MapOpts}
+\* thorough: every pair over a medium option set, every triple over the representative subset
+Opts2 == Plain(2) \cup {<<"arr", 2 * c, 2>> : c \in 0..1} \cup {<<"fbuf", 2, 2>>}
+         \cup {<<k, l>> : k \in {"iov", "aiov"}, l \in {<<>>, <<2>>, <<1, 1>>, <<0, 2>>}}
+         \cup {<<"msg", <<a>>>> : a \in NestFields(2)} \cup {<<"msg", <<a, b>>>> : a \in {<<"abuf", 2>>, <<"buf", 0>>}, b \in {<<"str", 2>>, <<"aiov", <<1>>>>}}
+         \cup ArrmOpts \cup MapOpts
+MsgsThorough == MsgsOf(1, 2)
+                \cup {[ck |-> c, S |-> 2, fs |-> <<a, b>>] : c \in BOOLEAN, a \in Opts2, b \in Opts2 \ MapOpts}
+                \cup {[ck |-> c, S |-> 2, fs |-> <<a, b, d>>] : c \in BOOLEAN, a \in Repr2, b \in Repr2 \ MapOpts, d \in Repr2 \ MapOpts}
 \* the known-finding configurations only need a witness
 MsgsKF == {[ck |-> c, S |-> 2, fs |-> <<a>>] : c \in BOOLEAN, a \in Repr}
 ModesAll == {"honest", "hostile", "hostileSL", "altered", "short"}
